@@ -787,17 +787,17 @@ struct Runner {
       std::string err;
       Res e = m.apply(op, r, err);
       out.stepChecks++;
-      std::string hist = history(ops, i);
+      auto hist = [&] { return history(ops, i); };
       if (r.bad) {
         out.add(key(attributed(op, before, std::string("api-inconsistency:") + badName(r.bad))),
                 J().kv("where", where).kv("op", opStr(op)).kv("step", (uint64_t)i).kv("what", badName(r.bad)).kv("flavour", fl.name)
-                    .kv("history", hist).str());
+                    .kv("history", hist()).str());
         return false;
       }
       if (!err.empty() || !sameRes(e, r)) {
         out.add(key(attributed(op, before, "result-mismatch")),
                 J().kv("where", where).kv("op", opStr(op)).kv("step", (uint64_t)i).kv("observed", resStr(r)).kv("model", resStr(e))
-                    .kv("model_error", err).kv("flavour", fl.name).kv("history", hist).str());
+                    .kv("model_error", err).kv("flavour", fl.name).kv("history", hist()).str());
         return false;
       }
       Dump dr, dm;
@@ -807,13 +807,13 @@ struct Runner {
       if (!probs.empty()) {
         out.add(key(attributed(op, before, probs[0].kind)),
                 J().kv("where", where).kv("op", opStr(op)).kv("step", (uint64_t)i).kv("what", probs[0].detail).kv("flavour", fl.name)
-                    .kv("history", hist).str());
+                    .kv("history", hist()).str());
         return false;
       }
       if (!(dr == dm)) {
         out.add(key(attributed(op, before, "state-differs-from-model")),
                 J().kv("where", where).kv("op", opStr(op)).kv("step", (uint64_t)i).kv("what", dr.diff(dm, "graph", "model"))
-                    .kv("flavour", fl.name).kv("history", hist).str());
+                    .kv("flavour", fl.name).kv("history", hist()).str());
         return false;
       }
     }
@@ -842,9 +842,6 @@ struct Runner {
         ops.push_back(p.ops[i]);
     countOps(ops);
     serialStepwise(ops, nullptr, "sequential");
-    // final state bookkeeping (for the evidence) from a plain second execution
-    out.commits  = ops.size();
-    out.attempts = ops.size();
   }
   void countOps(const std::vector<Op>& ops) {
     for (auto& o : ops) {
@@ -880,7 +877,6 @@ struct Runner {
       // directed graphs: do hidden in-edges come back?
       out.stepChecks++;
     }
-    out.commits = out.attempts = spec.progs.size();
   }
 
   void runLoop() {
